@@ -20,6 +20,10 @@ EPSILON_SQR = EPSILON * EPSILON
 # value are slivers: the barycentric coordinates computed from the Gram
 # determinant are dominated by cancellation errors.
 SLIVER_EPSILON = 1e-10
+# Triangles whose squared sine of the angle between two edges is below this
+# value are treated as degenerate (collinear points): the direction of their
+# normal is dominated by rounding errors of the vertex coordinates.
+DEGENERATE_SIN_SQR = 1e-20
 ALL_TRUE = np.array([True, True, True, True], dtype=np.dtype("bool"))
 
 
@@ -444,15 +448,24 @@ def closest_point_triangle(a, b, c):
     # same length). Therefore, we can suffice by just picking the shortest from
     # 2 edges and use that with the 3rd edge to calculate the normal. We first
     # check which of the edges is shorter.
-    bc_shorter_than_ac = bc.dot(bc) < ac.dot(ac)
+    ab_len_sq = ab.dot(ab)
+    bc_len_sq = bc.dot(bc)
+    ac_len_sq = ac.dot(ac)
+    bc_shorter_than_ac = bc_len_sq < ac_len_sq
     if bc_shorter_than_ac:
         n = np.cross(ab, bc)
     else:
         n = np.cross(ab, ac)
     n_len_sq = np.dot(n, n)
 
-    # Check degenerate
-    if n_len_sq < EPSILON_SQR:
+    # Check degenerate. The test is relative to the two longest edges (sine of
+    # the smallest angle): large triangles with almost collinear or almost
+    # coinciding vertices have a normal and edge region tests that only
+    # consist of rounding noise.
+    longest_edges_len_sq = (ab_len_sq * bc_len_sq * ac_len_sq
+                            / max(min(ab_len_sq, bc_len_sq, ac_len_sq), EPSILON_SQR))
+    if (n_len_sq < EPSILON_SQR
+            or n_len_sq <= DEGENERATE_SIN_SQR * longest_edges_len_sq):
         # Degenerate, fallback to edges
 
         # Edge AB
